@@ -506,8 +506,11 @@ def applyVerb (env : Env) (srcVar : String) (call : VerbCall) : Except Err (Tbl 
       if cols.isEmpty && t.cache.partitionBy.isEmpty then throw .value
       for v in vals do
         checkSummarize t.cache.partitionBy 64 false v
+      -- `check_subquery` comes first (SubqueryError wins); the KeyError of finding D28 is raised by the
+      -- `Cache.update` that follows
+      let res ← finishVerb env (.summarize nid t.ast (cols.map (·.1)) vals uids (vals.map (Cache.rootMeta false))) t
       if t.cache.summarizeKeyError then throw (.internal "KeyError uuid_to_name")
-      finishVerb env (.summarize nid t.ast (cols.map (·.1)) vals uids (vals.map (Cache.rootMeta false))) t
+      pure res
   | .sliceHead n off => do
       if !t.cache.partitionBy.isEmpty then throw .value
       finishVerb env (.sliceHead nid t.ast n off) t
